@@ -1,10 +1,24 @@
 //! Offline shim of `num_enum` 0.6: only `TryFromPrimitive` for fieldless `#[repr(u8)]` enums.
 pub use num_enum_derive::TryFromPrimitive;
 
-#[derive(Debug, Clone, Copy, PartialEq, Eq)]
 pub struct TryFromPrimitiveError<Enum: TryFromPrimitive> {
     pub number: Enum::Primitive,
 }
+
+// Manual impls: a derive would demand `Enum: Debug/Clone/...`, which the real crate does not.
+impl<Enum: TryFromPrimitive> core::fmt::Debug for TryFromPrimitiveError<Enum> {
+    fn fmt(&self, f: &mut core::fmt::Formatter<'_>) -> core::fmt::Result {
+        f.debug_struct("TryFromPrimitiveError").field("number", &self.number).finish()
+    }
+}
+impl<Enum: TryFromPrimitive> Clone for TryFromPrimitiveError<Enum> {
+    fn clone(&self) -> Self { *self }
+}
+impl<Enum: TryFromPrimitive> Copy for TryFromPrimitiveError<Enum> {}
+impl<Enum: TryFromPrimitive> PartialEq for TryFromPrimitiveError<Enum> {
+    fn eq(&self, o: &Self) -> bool { self.number == o.number }
+}
+impl<Enum: TryFromPrimitive> Eq for TryFromPrimitiveError<Enum> {}
 
 impl<Enum: TryFromPrimitive> core::fmt::Display for TryFromPrimitiveError<Enum> {
     fn fmt(&self, f: &mut core::fmt::Formatter<'_>) -> core::fmt::Result {
